@@ -1144,3 +1144,33 @@ def rule_hash_params(ctx: Ctx, rep: Report, rule: str, module_prefixes: tuple[st
                        f"`{callee.name}` is given `{pn}={a.id}`, the caller's own `{a.id}` as it came: it is the text, not its hash")
     rep.ob(rule, "scanned", True, "btclib:1", f"{n} arguments to ..._hash parameters examined in {module_prefixes}")
     rep.floor(rule, floor)
+
+
+def rule_ctor_copies_containers(ctx: Ctx, rep: Report, rule: str, module_prefixes: tuple[str, ...], floor: int) -> None:
+    """A constructor that takes a sequence or a mapping stores *its own* container:
+    `list(inputs)`, `dict(...)`, a decoder's answer -- never the caller's object,
+    on any arm of a conditional. Held as it came, the caller's list is the
+    object's: appending an input to it afterwards changes a psbt that was built
+    and funded before (44 of 44 sites on the unchanged tree copy)."""
+    n = 0
+    for q, fi in sorted(ctx.prog.functions.items()):
+        if fi.name != "__init__" or not any(q.startswith(p_) for p_ in module_prefixes):
+            continue
+        a = fi.node.args
+        seqp = {p_.arg for p_ in a.posonlyargs + a.args + a.kwonlyargs if p_.annotation is not None and any(w in str(norm(p_.annotation)) for w in ("Sequence", "list[", "Mapping", "dict[", "Iterable"))}
+        if not seqp:
+            continue
+        for st in own_nodes(fi.node):
+            tg = val = None
+            if isinstance(st, ast.Assign) and isinstance(st.targets[0], ast.Attribute) and isinstance(st.targets[0].value, ast.Name) and st.targets[0].value.id == "self":
+                tg, val = st.targets[0], st.value
+            if isinstance(st, ast.Call) and str(norm(st.func)) == "object.__setattr__" and len(st.args) == 3:
+                tg, val = st.args[1], st.args[2]
+            if tg is None or not any(isinstance(x, ast.Name) and x.id in seqp for x in ast.walk(val)):
+                continue
+            n += 1
+            arms = [val.body, val.orelse] if isinstance(val, ast.IfExp) else [val]
+            bare = [arm for arm in arms if isinstance(arm, ast.Name) and arm.id in seqp]
+            rep.ob(rule, f"{q}:{norm(tg)}", not bare, fi.where(st), "stored as a container of the object's own" if not bare else
+                   f"`{norm(st)[:80]}` keeps the caller's own `{bare[0].id}`: what the caller does to it afterwards happens to this object")
+    rep.floor(rule, floor)
